@@ -55,6 +55,7 @@ fn run_one(v: &Value, out: &mut Vec<String>) {
     sim.ignores_term = v["ignores_term"].as_bool().unwrap_or(false);
     sim.kill_latency = v["kill_latency"].as_u64().unwrap_or(0);
     sim.overshoot = v["overshoot"].as_u64().unwrap_or(0);
+    sim.clock_step = v["clock_step"].as_u64().unwrap_or(0);
     if let Some(l) = v["eintr_at"].as_array() {
         sim.eintr_at = l.iter().map(|x| x.as_u64().unwrap()).collect();
     }
